@@ -8,9 +8,9 @@ use std::sync::Arc;
 
 pub struct CertGroup;
 
-struct Pair { cert_pem: String, key_pem: String, cert_der: Vec<u8>, serial: String }
+pub struct Pair { pub cert_pem: String, pub key_pem: String, pub cert_der: Vec<u8>, pub serial: String }
 
-fn make_pair(name: &str, expired: bool) -> Pair {
+pub fn make_pair(name: &str, expired: bool) -> Pair {
     let mut params = rcgen::CertificateParams::new(vec![format!("{name}.test")]).unwrap();
     if expired {
         params.not_before = rcgen::date_time_ymd(2019, 1, 1);
